@@ -14,6 +14,7 @@ import GojaModel.C13.Gateway
 import GojaModel.C13.GoSlice
 import GojaModel.C13.Spec
 import GojaModel.C13.ExportTo
+import GojaModel.C13.NestedSpec
 
 namespace GojaModel.C13.Driver
 open GojaModel.C13 GojaModel.Proto
@@ -569,6 +570,59 @@ def runY (ws : List String) : String :=
     (canonY kindOf tys c.cache c.out fuel [] g).2
   | _ => "BADLINE"
 
+/-! ### KS: nested-wrapper histories through the documented semantics (NestedSpec.lean) -/
+
+def dumpK (s : KSp) (pre : String) : String :=
+  let sl := (List.range s.len).map (fun i => showInt (s.x i) ++ "/" ++ showInt (s.y i))
+  let hs := (List.range s.nh).map (fun w => showInt (s.curX w) ++ "/" ++ showInt (s.curY w))
+  let ns := s.par.map (fun p => showInt (s.curX p))
+  pre ++ "len=" ++ toString s.len ++ " s=[" ++ ",".intercalate sl ++ "] h=[" ++ ",".intercalate hs ++ "] n=[" ++
+    ",".intercalate ns ++ "]"
+
+/-- `none`: the operation was skipped by the harness guard (copy from beyond the end): nothing is promised after it -/
+def runKOp (s : KSp) (tok : String) : Option (KSp × String) :=
+  match tok.splitOn ":" with
+  | ["get", i] =>
+      let i := nat! i
+      if s.len ≤ i then some (s, "g=- ") else
+      match s.findAtt i with
+      | some w => some (s, "g=" ++ toString w ++ " ")
+      | none => some ({ s with h := updN s.h s.nh (.att i), nh := s.nh + 1 }, "g=" ++ toString s.nh ++ " ")
+  | ["in", hh] =>
+      let p := nat! hh
+      if s.nh ≤ p then some (s, "") else
+      match handleNo s.par p with
+      | some k => some (s, "n=" ++ toString k ++ " ")
+      | none => some ({ s with par := s.par ++ [p] }, "n=" ++ toString s.par.length ++ " ")
+  | ["set", i, x] => some (s.assign (nat! i) (int! x) 0, "")
+  | ["cp", i, j] =>
+      let j := nat! j
+      if s.len ≤ j then none else some (s.assign (nat! i) (s.x j) (s.y j), "")
+  | ["wx", k, x] =>
+      match s.par[nat! k]? with
+      | some p => some (s.writeX p (int! x), "")
+      | none => some (s, "")
+  | ["wpx", hh, x] => some (s.writeX (nat! hh) (int! x), "")
+  | ["gw", i, x] => some (if nat! i < s.len then { s with x := updN s.x (nat! i) (int! x) } else s, "")
+  | ["len", n] => some (s.setLen (nat! n), "")
+  | ["sort"] => some (s.sort, "")
+  | _ => some (s, "BADOP ")
+
+def runKS (ws : List String) : String :=
+  match ws with
+  | _ :: vals :: "|" :: ops =>
+    let vs : List Int := if vals = "-" then [] else (vals.splitOn ",").map int!
+    let init : KSp := { len := vs.length, x := fun i => vs.getD i 0, y := fun i => if i < vs.length then 100 + i else 0,
+                        h := fun _ => .det 0 0, nh := 0, par := [] }
+    let (_, outs, _) := ops.foldl (fun (acc : KSp × List String × Bool) tok =>
+        let (s, outs, dead) := acc
+        if dead then (s, "?" :: outs, true) else
+        match runKOp s tok with
+        | some (s', pre) => (s', dumpK s' pre :: outs, false)
+        | none => (s, "?" :: outs, true)) (init, [], false)
+    " ; ".intercalate outs.reverse
+  | _ => "BADLINE"
+
 def handle (line : String) : String :=
   match words line with
   | "W" :: rest => runW rest
@@ -582,6 +636,7 @@ def handle (line : String) : String :=
   | "C" :: rest => runC rest
   | "A" :: rest => runA rest
   | "Y" :: rest => runY rest
+  | "KS" :: rest => runKS rest
   | "I" :: rest => runI rest
   | "J" :: rest => runJ rest
   | _ => "BADLINE"
